@@ -82,6 +82,8 @@ struct Inner {
     /// the running thread waits inside the scheduler itself (for a spawned thread to register):
     /// that is no block on an unknown primitive, however long it takes on a loaded machine
     internal_wait: u32,
+    /// since when nobody holds the token, nobody is enabled and somebody is blocked for real
+    all_blocked_since: Option<Instant>,
     log: Vec<String>,
     keep_log: bool,
 }
@@ -175,6 +177,7 @@ impl Sched {
                 last_progress: Instant::now(),
                 asleep: 0,
                 internal_wait: 0,
+                all_blocked_since: None,
                 log: Vec::new(),
                 keep_log: cfg.keep_log,
             }),
@@ -241,6 +244,7 @@ impl Sched {
         g.running = Some(tid);
         g.last_progress = Instant::now();
         g.asleep = 0;
+        g.all_blocked_since = None;
     }
 
     /// Chooses the next thread to run. `from` is the thread that made the step (now parked or
@@ -332,6 +336,31 @@ impl Sched {
                     .wait_timeout(g, Duration::from_millis(if expected { 1 } else { 10 }))
                     .unwrap_or_else(|e| e.into_inner());
                 g = ng;
+                if to.timed_out() && g.internal_wait == 0 && g.running.is_none() && !g.ending {
+                    // nobody runs, nobody can be granted the token: if the threads that are
+                    // blocked for real stay blocked (the kernel says so, for 1.5 s), nobody
+                    // will ever wake them - a deadlock on primitives the model does not know
+                    let none_enabled = !(0..g.threads.len()).any(|t| Self::enabled(&g, t));
+                    let blocked: Vec<usize> = (0..g.threads.len()).filter(|t| g.threads[*t].state == TState::Blocked).collect();
+                    if none_enabled && !blocked.is_empty() && blocked.iter().all(|t| kernel_blocked(g.threads[*t].ktid)) {
+                        let since = *g.all_blocked_since.get_or_insert_with(Instant::now);
+                        if since.elapsed() > Duration::from_millis(1500) {
+                            let desc = g
+                                .threads
+                                .iter()
+                                .enumerate()
+                                .filter(|(_, t)| t.state != TState::Finished)
+                                .map(|(i, t)| if t.state == TState::Blocked { format!("T{i}({}) is blocked for real (in a lock or wait no hook announces)", t.kind) } else { format!("T{i}({}) waits at {:?}", t.kind, t.pending) })
+                                .collect::<Vec<_>>()
+                                .join("; ");
+                            g.abort = Some(Abort::Deadlock(desc));
+                            g.ending = true;
+                            self.cv.notify_all();
+                        }
+                    } else {
+                        g.all_blocked_since = None;
+                    }
+                }
                 if to.timed_out() && g.internal_wait == 0 {
                     if let Some(r) = g.running {
                         // independent of machine load: a thread that merely waits for a CPU is
